@@ -357,6 +357,21 @@ Definition apply_xfer (H : N -> option cstate) (x : xfer) : N -> option cstate :
     end
   else H.
 
+(* the handles the caller holds, in order of (successful) open: what [c_live] is meant to be *)
+Definition live_next (l : list N) (o : op) (ou : out) : list N :=
+  match o, out_st ou with
+  | Open c, Ok => l ++ [o_h c]
+  | Release h, Ok => filter (fun k => negb (k =? h)) l
+  | _, _ => l
+  end.
+Fixpoint live_spec (l : list N) (ops : list op) (os : list out) : list N :=
+  match ops, os with
+  | o :: ops', ou :: os' => live_spec (live_next l o ou) ops' os'
+  | _, _ => l
+  end.
+(* the sub-list of [live] made of the handles in [l] *)
+Definition restr (l live : list N) : list N := filter (fun h => existsb (N.eqb h) l) live.
+
 (* all interleavings of per-goroutine scripts: each element of the result is the head of one
    thread (every call is one atomic step of the model) *)
 Inductive interleaving {A} : list (list A) -> list A -> Prop :=
